@@ -293,12 +293,13 @@ def c20(ck, tmp):
             lines = [stale(l) if rng.random() < 0.7 else l for l in lines]
         names = sorted({l.split("\t")[0].split(" ")[0] for l in lines})
         tsv = ["#readname\thaplotype\tphaseset\tchromosome"] if rng.random() < 0.8 else []
+        shared_ps = rng.random() < 0.4      # phase-set ids are unique per chromosome only: the same id on several chromosomes
         for nm in names + names[:2]:
             r = rng.random()
             if r < 0.25:
                 continue
             hap = rng.choice(["H1", "H2", "none"])
-            tsv.append("%s\t%s\t%s\t%s" % (nm, hap, "none" if hap == "none" else str(rng.randint(1, 99999)), rng.choice(["chr1", "chrX", "contig_7"])))
+            tsv.append("%s\t%s\t%s\t%s" % (nm, hap, "none" if hap == "none" else str(rng.choice([10571, 10571, 42]) if shared_ps else rng.randint(1, 99999)), rng.choice(["chr1", "chrX", "contig_7"])))
         if rng.random() < 0.5:
             rng.shuffle(tsv)
         gaf = os.path.join(tmp, "p.gaf")
